@@ -100,3 +100,10 @@ Print Assumptions C08_root_values_ab_eq_wide.
 From ChessV Require ClosedWide.
 Check @ClosedWide.C09w_cached_search_same.
 Print Assumptions ClosedWide.C09w_cached_search_same.
+
+(* the model constants equal the ones translated from the source on this run *)
+From ChessV Require ConstsTie.
+Check ConstsTie.rights_masks_tie.
+Check ConstsTie.promotions_tie.
+Check ConstsTie.search_key_arity_tie.
+Check ConstsTie.clock_key_threshold_tie.
